@@ -2055,7 +2055,7 @@ class Exec:
             if name == 'object.__new__' and len(A) == 1 and isinstance(A[0], VClass):
                 return [(st, VObj(A[0].qual, 'obj!%d' % next(_fresh)))]
             if name == 'weakref.ref':
-                if isinstance(A[0], (VObj, VFunc, VClass, VExt)):
+                if isinstance(A[0], (VObj, VFunc, VClass, VExt)) and not (isinstance(A[0], VExt) and A[0].name == 'weakref.ref'):
                     return [(st, VExt('weakref.ref', (A[0],)))]
                 return [(st, Raise('TypeError', getattr(n, 'lineno', None)))]      # None, ints, str, tuples cannot be weakly referenced
             if name == 'str' and len(A) == 1 and isinstance(A[0], VStr):
